@@ -1189,7 +1189,11 @@ emittentativedefns(void)
 	struct decl *d;
 
 	for (d = tentativedefns; d; d = d->next) {
-		if (!d->defined)
-			defineobj(d, NULL, false, NULL);
+		if (d->defined)
+			continue;
+		/* an array of unknown size is defined as if it had one element (C11 6.9.2p5) */
+		if (d->type->kind == TYPEARRAY && d->type->incomplete && d->linkage == LINKEXTERN)
+			d->type = mkarraytype(d->type->base, d->type->qual, 1);
+		defineobj(d, NULL, false, NULL);
 	}
 }
